@@ -117,6 +117,8 @@ class Check:
         floors = dict(self.floors)
         for rule, n in _baseline().get(self.pid, {}).items():
             floors[rule] = max(floors.get(rule, 0), n)
+        for rule in getattr(self, 'skipped_rules', ()):
+            floors.pop(rule, None)        # (re-filed clauses of another property that could not be evaluated: see rules/helpers.foreign)
         return floors
 
     # -- finishing
